@@ -3,6 +3,9 @@ import AlgoVerif.Spec.Fees
 namespace AlgoVerif.Driver.Fees
 open AlgoVerif.Drv Spec.Fees
 
+/-- minimum balance of a fee sink holding `na` assets (no apps/boxes): MinBalance·(1+na), saturating at 2^64−1 -/
+def sinkMin (mb na : Nat) : Nat := min (mb + mb * na) 18446744073709551615
+
 def handle (line : String) : String :=
   match fields line with
   | ["cgf", paid, usage, minFee] => if feeOk (nat! paid) (nat! usage) (nat! minFee) then "ok" else "err"
@@ -10,8 +13,13 @@ def handle (line : String) : String :=
   | ["payout", pct, fees, bonus, sink, mb] =>
       match payout (nat! pct) (nat! fees) (nat! bonus) (nat! sink) (nat! mb) with
       | none => "err" | some p => toString p
+  | ["payout", pct, fees, bonus, sink, mb, na] =>   -- sink holding `na` assets: its minimum balance is mb·(1+na)
+      match payout (nat! pct) (nat! fees) (nat! bonus) (nat! sink) (sinkMin (nat! mb) (nat! na)) with
+      | none => "err" | some p => toString p
   | ["vpay", c, pct, fees, bonus, sink, mb] =>
       if payoutAccepted (nat! c) (nat! pct) (nat! fees) (nat! bonus) (nat! sink) (nat! mb) then "ok" else "err"
+  | ["vpay", c, pct, fees, bonus, sink, mb, na] =>
+      if payoutAccepted (nat! c) (nat! pct) (nat! fees) (nat! bonus) (nat! sink) (sinkMin (nat! mb) (nat! na)) then "ok" else "err"
   | ["minbal", a, b, c, d, e, f, g, h, i, j, k, l, m, n, o, p] =>
       toString (minBalance (nat! a) (nat! b) (nat! c) (nat! d) (nat! e) (nat! f) (nat! g) (nat! h)
         (nat! i) (nat! j) (nat! k) (nat! l) (nat! m) (nat! n) (nat! o) (nat! p))
